@@ -28,7 +28,7 @@ for sec in secs:
         txt = re.sub(r'\([^)]*\)', '', rm.group(1).split('\n')[0])
         keys = [k.strip() for k in txt.split(',') if k.strip()]
     for k in keys:
-        if not re.match(r'^(panic:)?c\d\d:|^race:|^crash:', k): continue
+        if not re.match(r'^(panic:)?(e2e:)?c\d\d[a-z]*:|^race:|^crash:', k): continue
         e = {"property": prop, "status": "fixed", "commit": h}
         # expand {a,b} alternations are left as written: treat braces as prefix cut
         if '{' in k:
